@@ -5,7 +5,7 @@ JobPrivateInstanceManager.compute_fair_share (job_private.py, same algorithm ove
 
 The statement quantifies over all multisets of (running, ready) demands and all free amounts; that cannot be settled by sampling and
 a static analysis cannot run the loop.  What is decided here, from the syntax tree only (nothing is run, no input is sampled, no solver),
-is the set of *step obligations* under which the standard water-filling invariant is inductive.  The loop body is executed symbolically
+is the set of *step obligations* under which the standard water-filling invariant is inductive.  The loop body is executed abstractly (symbolic transfer functions, no solver)
 once per branch combination over polynomial normal forms (engines/polysym.py); every test atom becomes a constraint, and a finite table
 over  emptiness(pending) x emptiness(allocating) x rel(head running, mark) x rel(head total, mark) x rel(cost, free)  selects the unique
 path each situation takes.  Any shape outside the recognised fragment is declined (exit 2), never alarmed on.
@@ -33,7 +33,12 @@ Obligations decided (rule ids; the clause each one is necessary for in brackets)
   R5 (O5) loop guard = free > 0 and (pending or allocating) (table over the sign of free x emptiness); after the loop every user
           still allocating is allocated with the final mark; no other writer of the allocation; every record returned.   [b, d, e]
   R6 (O6) the mark is only ever replaced by mark (no change), the new level, or mark + a non-negative increment.           [b]
-  R7      use sites in the same module read only the allocation field that the function writes; call shapes bind the free amount.
+  R7      use sites in the same module read the allocation field that the function writes (and nothing else); call shapes bind the free amount.
+The situation table ranges over head >= mark only (== and >): head < mark is excluded by I itself (pending/allocating users are at or
+above the mark), which is re-established by every step once R1-R6 hold; cost-vs-free ranges over <, ==, > (for cost == free both
+branches are accepted: they coincide).  Accepted as equivalent and therefore not alarmed on: `<=` for the two equality tests,
+`>=` for the exhaustion test (as long as the guard stays strict), a dead `free = 0` before `break`, either order of the two steps,
+int()/round()/floor of the quotient, no `+ 0.5` in the helper (integers).
 Argued, not mechanised: the induction itself (each step re-establishes I given R1-R6; in the raise step level > mark because both
 heads are >= mark by I and != mark by R2/R3, so cost >= 0, n = 0 => cost = 0 <= free), termination (every iteration moves a user or
 raises the mark to the next of finitely many breakpoints or leaves), and the rounding bounds: with integer inputs mark stays integer
@@ -57,7 +62,7 @@ from engines.polysym import Elem, Mix, Poly, Quot, Rnd, Trunc, UserVar
 
 META = dict(
     category='other',
-    text='Partial: the step obligations of the water-filling invariant are decided on the syntax tree by path-wise symbolic execution of the '
+    text='Partial: the step obligations of the water-filling invariant are decided on the syntax tree by path-wise abstract execution (extraction of symbolic transfer functions) of the '
          'loop body over polynomial normal forms and a finite table over emptiness x order relations (which path each situation takes, and '
          'what it does to the sets, the mark and the free amount), plus linear forms of the key definitions and of the stored allocation. '
          'The induction over loop iterations and the rounding bounds are argued in the module docstring, not mechanised; this is the right '
@@ -65,7 +70,7 @@ META = dict(
     note='Trusted: CPython ast; engines/polysym.py, linform.py, asyncfacts.TestEval; SortedSet keeps its elements ordered by key while keys '
          'are stable. Not decided: the SQL rows (one per user, non-negative integers), the callers\' free amount and its unit, float precision '
          'beyond 2**53.',
-    technique='static analysis: path-wise symbolic execution over polynomial normal forms + finite truth tables over the order relation + '
+    technique='static analysis: per-path symbolic transfer functions of the loop body over polynomial normal forms (abstract interpretation, no solver) + finite truth tables over the order relation + '
               'linear-form comparison + writer closure',
     design_ref='DESIGN.md §3 C11 (partial claim; design given with the task)',
 )
@@ -180,6 +185,14 @@ def discover(ctx: Ctx, m: pf.Module, T: dict) -> Shape:
     ctx.need(ht.value.slice.id == H.args.args[0].arg, f'{q}: helper {H.name} does not index the result by its first parameter')
     S.helper, S.alloc_field, S.result = H, ht.slice.value, ht.value.value.id
     ctx.need(body.index(H) < body.index(S.loop), f'{q}: helper defined after the loop')
+    # the per-user dicts: bound to an empty dict before the record loop (the result excluded)
+    S.dicts = []
+    for st in body[:body.index(S.rec)]:
+        nt = _name_target(st)
+        if nt and nt[0] != S.result and ((isinstance(nt[1], ast.Dict) and not nt[1].keys) or
+                                         (isinstance(nt[1], ast.Call) and pf.dotted(nt[1].func) == 'dict' and not nt[1].args and not nt[1].keywords)):
+            S.dicts.append(nt[0])
+    ctx.need(all(d in S.dicts for d in sets.values()), f'{q}: a SortedSet key reads a dict that is not bound to an empty dict before the record loop')
     # roles of the sets: pending = the one filled by the record loop
     added = {c.func.value.id for c in ast.walk(S.rec) if isinstance(c, ast.Call) and isinstance(c.func, ast.Attribute) and c.func.attr == 'add'
              and isinstance(c.func.value, ast.Name) and c.func.value.id in sets}
@@ -230,7 +243,7 @@ def check_records(ctx: Ctx, rep: Rep, m: pf.Module, T: dict, S: Shape) -> Dict[s
     q, rec = S.q, S.rec
     ctx.need(isinstance(rec.target, ast.Name), f'{q}: record loop target is not a plain name')
     rv = rec.target.id
-    dicts = sorted(set(S.sets.values()))
+    dicts = sorted(S.dicts)
     env: Dict[str, ast.AST] = {}
     user_names = set()
     writes: Dict[str, List[Tuple[int, ast.expr]]] = {}
@@ -269,6 +282,8 @@ def check_records(ctx: Ctx, rep: Rep, m: pf.Module, T: dict, S: Shape) -> Dict[s
                             f'{st.value.value} instead of 0: e.g. users {{a: running 0 ready 4000, b: running 9000 ready 1000}} and 1000 free', st.lineno)
                     init_pos.append(i)
                 continue
+            if base == rv and isinstance(t.slice, ast.Constant) and isinstance(t.slice.value, str):
+                continue   # some other field of the record (not read by the allocation)
             raise AnalysisError(f'{q}: unrecognised store `{pf.nsrc(st)}` in the record loop')
         if isinstance(st, ast.Expr) and isinstance(st.value, ast.Call) and isinstance(st.value.func, ast.Attribute) and st.value.func.attr == 'add' \
                 and pf.nsrc(st.value.func.value) == S.P and len(st.value.args) == 1:
@@ -293,14 +308,14 @@ def check_records(ctx: Ctx, rep: Rep, m: pf.Module, T: dict, S: Shape) -> Dict[s
     # key dict writes: in the record loop only, once, before the insertion
     lins: Dict[str, linform.Lin] = {}
     for d in dicts:
-        role = f'key dict {d}::written once before the insertion, never afterwards'
+        role = f'key dict {d}::written once per record (before the insertion it orders), never afterwards'
         rep.role('R1', role)
         w = writes.get(d, [])
         ctx.need(len(w) <= 1, f'{q}: `{d}[user]` is written {len(w)} times in the record loop')
         if not w:
             rep.bad('R1', role, f'`{d}[user]` is never written in the record loop: the key function of the SortedSet raises KeyError at the first insertion', rec.lineno)
             continue
-        if w[0][0] > add_pos[0]:
+        if w[0][0] > add_pos[0] and d == S.sets[S.P]:   # only the key of the set being inserted into is evaluated at the insertion
             rep.bad('R1', role, f'`{d}[user]` is written after `{S.P}.add(user)`: the SortedSet evaluates its key at insertion (KeyError / stale order)', rec.body[w[0][0]].lineno)
         try:
             lins[d] = linform.lin(w[0][1], env)
@@ -372,7 +387,7 @@ def check_helper(ctx: Ctx, rep: Rep, T: dict, S: Shape) -> Optional[str]:
     u = T['unit']
     role = f'helper {H.name} stores mark - running'
     rep.role('R3', role)
-    sx = ps.SymExec([], sorted(set(S.sets.values())), None, q)
+    sx = ps.SymExec([], sorted(S.dicts), None, q)
     p = ps.Path({H.args.args[0].arg: UserVar('user'), H.args.args[1].arg: Poly.sym('mark')})
     st = af.body_no_doc(H)[0]
     v = sx.ev(st.value, p)  # type: ignore[attr-defined]
@@ -450,7 +465,7 @@ def _split_cost(diff: Poly) -> Optional[Tuple[Poly, int]]:
 def check_loop(ctx: Ctx, rep: Rep, T: dict, S: Shape, strict_guard: bool) -> Tuple[Optional[str], Optional[str]]:
     q, u, P, A = S.q, T['unit'], S.P, S.A
     M, F = Poly.sym('M'), Poly.sym('F')
-    sx = ps.SymExec([P, A], sorted(set(S.sets.values())), S.helper.name, q)
+    sx = ps.SymExec([P, A], sorted(S.dicts), S.helper.name, q)
     paths = sx.block(S.loop.body, ps.Path({S.mark: M, S.free: F}))
     ctx.need(paths, f'{q}: no path through the loop body')
     line = S.loop.lineno
@@ -585,7 +600,7 @@ def check_loop(ctx: Ctx, rep: Rep, T: dict, S: Shape, strict_guard: bool) -> Tup
                             continue
                         if p.err is not None:
                             raise AnalysisError(f'{p.err} [situation: {where}]')
-                        dm, df = p.env[S.mark], p.env[S.free]
+                        dm, df = ps.as_poly(p.env[S.mark]), ps.as_poly(p.env[S.free])
                         rem = [(e[1], e[2]) for e in p.eff if e[0] == 'remove']
                         add = [(e[1], e[2]) for e in p.eff if e[0] == 'add']
                         alc = [(e[1], e[2]) for e in p.eff if e[0] == 'alloc']
@@ -683,6 +698,10 @@ def check_loop(ctx: Ctx, rep: Rep, T: dict, S: Shape, strict_guard: bool) -> Tup
                                 continue
                             seen_exh = True
                             exh_on_eq = exh_on_eq or relc == '=='
+                            if dm.poly == lvl and dm.sign == 1:
+                                rep.bad('R4', R4E, f'when cost > free ({where}) the mark becomes `level + {dm.rnd}`: it is raised to the level whose cost exceeds the free amount and '
+                                        f'then further; e.g. users {{a: running 0 ready 4000, b: running 0 ready 4000}} and 4000 {u} free must end at mark 2000, not 6000', line)
+                                continue
                             if dm.poly != M or dm.sign != 1:
                                 rep.bad('R6', R6, f'in the exhausted branch the mark becomes `{dm}`, not mark + increment: it can fall below the level already handed out; e.g. user '
                                         f'{{a: running 1000 ready 4000}} and 1000 {u} free: the mark is 1000 when a is admitted and must end at 2000', line)
@@ -858,12 +877,14 @@ def check_uses(ctx: Ctx, rep: Rep, m: pf.Module, T: dict, S: Shape) -> None:
         keys = {n.slice.value for n in ast.walk(g) if isinstance(n, ast.Subscript) and isinstance(n.value, ast.Name) and n.value.id in recvars
                 and isinstance(n.slice, ast.Constant) and isinstance(n.slice.value, str)}
         ctx.need(keys, f'{gq}: no field of the fair-share records is read (consumer not recognised)')
-        role = f'{gq}::reads only the allocation'
+        role = f'{gq}::reads the allocation field'
         rep.role('R7', role, {'fields': sorted(keys)})
         n_cons += 1
-        if keys != {S.alloc_field}:
-            rep.bad('R7', role, f'the consumer reads {sorted(keys - {S.alloc_field})} of the fair-share records where the allocation `{S.alloc_field}` is meant: the share it '
-                    'schedules with is not the water-filling allocation', g.lineno)
+        if S.alloc_field not in keys:
+            rep.bad('R7', role, f'the consumer reads {sorted(keys)} of the fair-share records but never `{S.alloc_field}`, the field the allocation is stored in: the share it '
+                    'schedules with is not the water-filling allocation (KeyError if no such field exists)', g.lineno)
+        else:
+            ctx.need(keys == {S.alloc_field}, f'{gq}: the consumer also reads {sorted(keys - {S.alloc_field})} of the fair-share records (how they are used is not analysed)')
     ctx.need(n_cons >= 1, f'{S.q}: no consumer of the fair share found in {m.rel}')
 
 
@@ -891,7 +912,7 @@ def check_target(ctx: Ctx, T: dict) -> None:
 
 
 def run(ctx: Ctx) -> None:
-    ctx.explanation = ('Path-wise symbolic execution of the two water-filling loops over polynomial normal forms; a finite table over emptiness of the two ordered sets x '
+    ctx.explanation = ('Path-wise abstract execution (symbolic transfer functions) of the two water-filling loops over polynomial normal forms; a finite table over emptiness of the two ordered sets x '
                        'relation of each head to the mark x relation of the step cost to the free amount selects the path each situation takes, whose effect on the sets, '
                        'the mark and the free amount is compared with the water-filling step; linear forms of the key definitions and of the stored allocation; writer '
                        'closure of the key dicts and of the allocation field.  The induction over iterations and the rounding bounds are argued, not mechanised.')
@@ -909,3 +930,17 @@ def run(ctx: Ctx) -> None:
     ctx.assume('the induction over loop iterations (invariant I in the module docstring) and the rounding bounds are argued by hand from the decided step obligations')
     for T in TARGETS:
         check_target(ctx, T)
+    if ctx.tier == 'thorough':
+        # closure scan: every other caller in the batch package (display handlers read further record fields; listed, not judged)
+        names = {T['func'] for T in TARGETS} | {w for T in TARGETS for w in T['wrappers']}
+        others = []
+        for rel in pf.walk_py(['batch/batch']):
+            if rel in (POOL, JP):
+                continue
+            m2 = pf.load(rel)
+            ctx.unit('files_scanned')
+            for gq, g in m2.functions():
+                for c in pf.walk_shallow(g):
+                    if isinstance(c, ast.Call) and isinstance(c.func, ast.Attribute) and c.func.attr in names:
+                        others.append(f'{rel}::{gq}: {pf.nsrc(c)}')
+        ctx.extra_cov['other_callers'] = sorted(set(others))
